@@ -73,7 +73,7 @@ static void run(Src &s) {
     econf_newIniFile(&b);
     int n = (int)s.below(6);
     for (int i = 0; i < n; i++) {
-      const SecArg &sa = SEC_ARGS[s.below(8)];
+      const SecArg &sa = SEC_ARGS[s.below(N_SEC_ARGS)];
       econf_setStringValue(s.chance(50) ? a : b, sa.arg, hist_keys()[s.below(4)].c_str(), ("m" + std::to_string(i)).c_str());
     }
     e = econf_mergeFiles(&kf, a, b);
@@ -102,7 +102,7 @@ static void run(Src &s) {
     auto sp = s.span();
     if (!(n < 60 && s.chance(96))) break;
     n++;
-    const SecArg &sa = SEC_ARGS[s.below(8)];
+    const SecArg &sa = SEC_ARGS[s.below(N_SEC_ARGS)];
     const std::string &key = hist_keys()[s.below((uint32_t)hist_keys().size())];
     std::string sec = sa.norm;
     const char *sarg = sa.arg;
